@@ -120,6 +120,7 @@ pub fn scenario(mode: &str, pool_size: u32, progs: &[&str], gate: Gate) -> Scena
         servers,
         actors,
         opts: Opts::default(),
+        meta: serde_json::Value::Null,
     }
 }
 
